@@ -553,7 +553,9 @@ func (e *Executor) GetTask(call *Call) (*ast.Task, error) {
 	// If we found no tasks
 	if len(aliasedTasks) == 0 {
 		didYouMean := ""
-		if e.fuzzyModel != nil {
+		// The spell checker builds O(len^2) candidate strings: only ask it
+		// about plausible names
+		if e.fuzzyModel != nil && len(call.Task) <= 64 {
 			didYouMean = e.fuzzyModel.SpellCheck(call.Task)
 		}
 		return nil, &errors.TaskNotFoundError{
